@@ -220,6 +220,78 @@ fn gen_wide(rng: &mut Rng) -> Prog {
     if rng.chance(1, 3) { Rule(rng.below(5) as R, Box::new(Seq(Box::new(p)))) } else { p }
 }
 
+/// "wide choice of rules under nested rules": `pre` failed rule attempts already recorded at the farthest position, then
+/// `levels` enclosing rules (each remembers the number of call stacks at its entry), the innermost one a choice of `width`
+/// rules that all fail at that same position (>= CALL_STACK_CHILDREN_THRESHOLD of them collapse into the parent).
+fn nested_wide(prefix: usize, pre: usize, levels: usize, width: usize, side: usize, tok: &dyn Fn(usize) -> Prog) -> Prog {
+    use Prog::*;
+    let alts = |from: usize, n: usize| -> Vec<Prog> { (0..n).map(|i| Rule(((from + i) % 5) as R, Box::new(tok(from + i)))).collect() };
+    let choice = |mut v: Vec<Prog>| -> Prog { let mut p = v.pop().unwrap(); while let Some(a) = v.pop() { p = Else(Box::new(a), Box::new(p)); } p };
+    let mut inner = Rule(4, Box::new(choice(alts(0, width.max(1)))));
+    for l in 1..levels {
+        let mut v = alts(10 + l, side);           // earlier alternatives of the enclosing rule, failing at the same position
+        v.push(inner);
+        inner = Rule((l % 4) as R, Box::new(choice(v)));
+    }
+    let mut v = alts(20, pre);
+    v.push(inner);
+    let mut p = choice(v);
+    for _ in 0..prefix { p = Then(Box::new(Str("a".into())), Box::new(p)); }
+    p
+}
+fn gen_nested_wide(rng: &mut Rng) -> Prog {
+    use Prog::*;
+    let kinds = rng.below(3);
+    let tok = move |i: usize| -> Prog {
+        match if kinds == 0 { 0 } else { (i as u64 + kinds) % 5 } {
+            0 => Str("b".into()), 1 => Ins("b".into()), 2 => Range('b', 'b'), 3 => Cls(vec![('A', 'Z')]), _ => Seq(Box::new(Then(Box::new(Str("b".into())), Box::new(Str("a".into()))))),
+        }
+    };
+    nested_wide(rng.below(3) as usize, rng.range(0, 3) as usize, rng.range(1, 3) as usize, rng.range(3, 6) as usize, rng.below(3) as usize, &tok)
+}
+
+/// stack-slice matching against inputs that match only a prefix of the stack: two or three different literals pushed, then
+/// stack_match_peek / stack_match_peek_slice directly as a choice alternative or under optional / repeat
+const STACK_LITS: [&str; 4] = ["a", "b", "ab", "é"];
+fn stack_ops() -> Vec<Prog> {
+    use Prog::*;
+    vec![MPeek, Slice(0, None, true), Slice(0, None, false), Slice(0, Some(2), true), Slice(-2, None, true), Slice(1, None, false), Slice(0, Some(-1), false), MPop]
+}
+fn stack_prog(lits: &[&str], op: &Prog, wrap: usize, tail: &Prog) -> Prog {
+    use Prog::*;
+    let core = match wrap {
+        0 => Else(Box::new(op.clone()), Box::new(tail.clone())),
+        1 => Then(Box::new(Opt(Box::new(op.clone()))), Box::new(tail.clone())),
+        2 => Then(Box::new(Rep(Box::new(op.clone()))), Box::new(tail.clone())),
+        3 => Rule(1, Box::new(Else(Box::new(Rule(2, Box::new(op.clone()))), Box::new(Rule(3, Box::new(tail.clone())))))),
+        _ => Then(Box::new(Look(false, Box::new(op.clone()))), Box::new(tail.clone())),
+    };
+    let mut p = core;
+    for l in lits.iter().rev() { p = Then(Box::new(PushLit(l.to_string())), Box::new(p)); }
+    p
+}
+/// inputs around the stack contents: every prefix of both match orders, each also followed by one foreign char
+fn stack_inputs(lits: &[&str]) -> Vec<String> {
+    let mut out: Vec<String> = vec![String::new()];
+    for order in [lits.to_vec(), lits.iter().rev().cloned().collect::<Vec<_>>()] {
+        let mut acc = String::new();
+        for l in order { acc.push_str(l); out.push(acc.clone()); for x in ["a", "b", "é"] { out.push(format!("{}{}", acc, x)); } }
+    }
+    out.sort(); out.dedup();
+    out
+}
+fn gen_stack15(rng: &mut Rng) -> (Prog, Vec<String>) {
+    use Prog::*;
+    let n = rng.range(2, 3) as usize;
+    let lits: Vec<&str> = (0..n).map(|_| STACK_LITS[rng.below(4) as usize]).collect();
+    let ops = stack_ops();
+    let op = ops[rng.below(ops.len() as u64) as usize].clone();
+    let tails = [Ok, Eoi, Str("a".into()), Str("b".into()), Rule(0, Box::new(Str("b".into()))), Cls(vec![('\0', '\u{10ffff}')])];
+    let tail = tails[rng.below(6) as usize].clone();
+    let p = stack_prog(&lits, &op, rng.below(5) as usize, &tail);
+    (p, stack_inputs(&lits))
+}
+
 // ------------------------------------------------------------------------------------------
 // generated grammars through pest_meta + pest_vm
 // ------------------------------------------------------------------------------------------
@@ -250,6 +322,46 @@ fn ggrammar(rng: &mut Rng) -> (String, usize) {
     }
     if rng.chance(1, 3) { g.push_str("WHITESPACE = _{ \" \" }\n"); }
     (g, nrules)
+}
+/// grammar-level version of nested_wide: r0 = { "a"{prefix} ~ (p0 | p1 | o1) }, o1 = { s1 | o2 }, ..., innermost = { a0 | a1 | a2 | a3 .. }
+fn ggrammar_wide(rng: &mut Rng) -> String {
+    let prefix = rng.below(3); let pre = rng.range(0, 3); let levels = rng.range(1, 3); let width = rng.range(3, 6); let side = rng.below(3);
+    let toks = ["\"b\"", "^\"b\"", "'b'..'b'", "ASCII_DIGIT", "(\"b\" ~ \"a\")"];
+    let kinds = rng.below(3);
+    let tok = |i: u64| toks[(if kinds == 0 { 0 } else { (i + kinds) % 5 }) as usize];
+    let mut g = String::new();
+    let mut rules: Vec<String> = vec![];
+    let inner_alts: Vec<String> = (0..width).map(|i| { rules.push(format!("a{} = {{ {} }}", i, tok(i))); format!("a{}", i) }).collect();
+    rules.push(format!("w = {{ {} }}", inner_alts.join(" | ")));
+    let mut inner = "w".to_string();
+    for l in 1..levels {
+        let mut alts: Vec<String> = (0..side).map(|i| { rules.push(format!("s{}x{} = {{ {} }}", l, i, tok(10 + l + i))); format!("s{}x{}", l, i) }).collect();
+        alts.push(inner);
+        rules.push(format!("o{} = {{ {} }}", l, alts.join(" | ")));
+        inner = format!("o{}", l);
+    }
+    let mut alts: Vec<String> = (0..pre).map(|i| { rules.push(format!("p{} = {{ {} }}", i, tok(20 + i))); format!("p{}", i) }).collect();
+    alts.push(inner);
+    let pre_s: String = (0..prefix).map(|_| "\"a\" ~ ").collect();
+    g.push_str(&format!("r0 = {{ {}({}) }}\n", pre_s, alts.join(" | ")));
+    for r in rules { g.push_str(&r); g.push('\n'); }
+    g
+}
+/// grammar-level version of stack_prog: r0 = { PUSH(l1) ~ PUSH(l2) ~ <PEEK_ALL / PEEK[a..b] as alternative or under ? / * / !> }
+fn ggrammar_stack(rng: &mut Rng) -> (String, Vec<String>) {
+    let n = rng.range(2, 3) as usize;
+    let lits: Vec<&str> = (0..n).map(|_| STACK_LITS[rng.below(4) as usize]).collect();
+    let op = ["PEEK_ALL", "PEEK[..]", "PEEK[0..2]", "PEEK[-2..]", "PEEK[1..]", "PEEK[..-1]", "POP_ALL"][rng.below(7) as usize];
+    let tail = ["\"a\"", "\"b\"", "ANY*", "EOI", "\"\"", "t"][rng.below(6) as usize];
+    let core = match rng.below(6) {
+        0 => format!("({} | {})", op, tail), 1 => format!("({})? ~ {}", op, tail), 2 => format!("({})* ~ {}", op, tail),
+        3 => format!("!({}) ~ {}", op, tail), 4 => format!("(x | {})", tail), _ => format!("({} | {}) ~ {}", op, tail, tail),
+    };
+    let pushes: String = lits.iter().map(|l| format!("PUSH(\"{}\") ~ ", l)).collect();
+    let g = format!("r0 = {{ {}{} }}\nx = {{ {} }}\nt = {{ \"b\" }}\n", pushes, core, op);
+    let consumed: String = lits.concat();
+    let inputs = stack_inputs(&lits).into_iter().map(|s| format!("{}{}", consumed, s)).collect();
+    (g, inputs)
 }
 fn vm_rule_message(r: &&str) -> Option<String> { if *r == "r2" { None } else { Some(format!("msg {}", r)) } }
 
@@ -348,18 +460,43 @@ fn main() {
                 let nfun = rng.below(3) as usize;
                 let env: Vec<Prog> = (0..nfun).map(|k| gen15(&mut rng, 2, nfun, Some(k + 1))).collect();
                 let d = rng.range(1, maxdepth as u64) as u32;
-                let mut prog = match rng.below(4) { 0 => gen_wide(&mut rng), 1 => gen(&mut rng, d, nfun, Some(0)), _ => gen15(&mut rng, d, nfun, Some(0)) };
+                let mut stack_in: Option<Vec<String>> = None;
+                let mut prog = match rng.below(7) {
+                    0 => gen_wide(&mut rng), 1 => gen(&mut rng, d, nfun, Some(0)), 2 => gen_nested_wide(&mut rng),
+                    3 => { let (p, ins) = gen_stack15(&mut rng); stack_in = Some(ins); p }
+                    _ => gen15(&mut rng, d, nfun, Some(0)),
+                };
                 // sometimes many lines first, so that line numbers (the spacing of the help text) reach two digits
                 let many_lines = rng.chance(1, 12);
                 if many_lines { prog = Prog::Then(Box::new(Prog::Rep(Box::new(Prog::Str("\n".into())))), Box::new(prog)); }
                 let lim = if rng.chance(1, 10) { Some(rng.range(1, 12) as usize) } else { None };
                 for _ in 0..3 {
-                    let mut input = gen_input15(&mut rng, 6);
+                    let mut input = match &stack_in { Some(ins) if rng.chance(4, 5) => ins[rng.below(ins.len() as u64) as usize].clone(), _ => gen_input15(&mut rng, 6) };
                     if many_lines { input = format!("{}{}", "\n".repeat(rng.range(8, 11) as usize), input); }
                     emit_pair(&Case { lim, det: true, input, env: env.clone(), prog: prog.clone() }, &mut w, &mut st);
                     i += 1;
                 }
             }
+        }
+        // the two families above, enumerated: nested rules over wide choices (all shapes up to 3 recorded attempts, 3 levels,
+        // 6 alternatives) and stack-slice matching (all ordered pairs of literals x operations x wrappers x prefix inputs)
+        "targeted" => {
+            use Prog::*;
+            let shard = arg_u64(2, 0); let shards = arg_u64(3, 1).max(1); let mut k = 0u64;
+            let toks: Vec<Box<dyn Fn(usize) -> Prog>> = vec![Box::new(|_| Str("b".into())), Box::new(|i| if i % 2 == 0 { Str("b".into()) } else { Ins("b".into()) }),
+                Box::new(|i| match i % 3 { 0 => Range('b', 'b'), 1 => Str("b".into()), _ => Cls(vec![('A', 'Z')]) })];
+            for prefix in 0..2 { for pre in 0..4 { for levels in 1..4 { for width in 2..7 { for side in 0..2 { for tok in &toks {
+                k += 1; if k % shards != shard { continue; }
+                let p = nested_wide(prefix, pre, levels, width, side, tok.as_ref());
+                for input in ["", "a", "aa", "ab", "b", "é"] { emit_pair(&Case { lim: None, det: true, input: input.to_string(), env: vec![], prog: p.clone() }, &mut w, &mut st); }
+            } } } } } }
+            let tails = [Ok, Eoi, Str("b".into()), Rule(0, Box::new(Str("a".into())))];
+            for l1 in STACK_LITS.iter() { for l2 in STACK_LITS.iter() { if l1 == l2 { continue; } for op in stack_ops().iter() { for wrap in 0..5 { for tail in tails.iter() {
+                k += 1; if k % shards != shard { continue; }
+                let lits = [*l1, *l2];
+                let p = stack_prog(&lits, op, wrap, tail);
+                for input in stack_inputs(&lits) { emit_pair(&Case { lim: None, det: true, input, env: vec![], prog: p.clone() }, &mut w, &mut st); }
+            } } } } }
         }
         // exhaustive small trees around rule / sequence / look-ahead x all short inputs
         "small" => {
@@ -391,18 +528,26 @@ fn main() {
             let alpha = ["a", "b", "é", " ", "\n", "A"];
             let mut i = 0;
             while i < count {
-                let (g, nrules) = ggrammar(&mut rng);
+                let mut fixed_inputs: Option<Vec<String>> = None;
+                let (g, nrules) = match rng.below(5) {
+                    0 => (ggrammar_wide(&mut rng), 1),
+                    1 => { let (g, ins) = ggrammar_stack(&mut rng); fixed_inputs = Some(ins); (g, 1) }
+                    _ => ggrammar(&mut rng),
+                };
                 let vm = match compile(&g) { Some(vm) => vm, None => { rejected += 1; continue; } };
                 for _ in 0..6 {
                     let n = rng.range(0, 5);
-                    let input: String = (0..n).map(|_| alpha[rng.weighted(&[6, 5, 2, 2, 1, 1])]).collect();
+                    let input: String = match &fixed_inputs {
+                        Some(ins) if rng.chance(5, 6) => ins[rng.below(ins.len() as u64) as usize].clone(),
+                        _ => (0..n).map(|_| alpha[rng.weighted(&[6, 5, 2, 2, 1, 1])]).collect(),
+                    };
                     let rule = format!("r{}", if rng.chance(3, 4) { 0 } else { rng.below(nrules as u64) });
                     emit_vm(&vm, &g, &rule, &input, &mut w, &mut st);
                     i += 1;
                 }
             }
         }
-        _ => { eprintln!("usage: c15 one CASE | vmone CASE | around CASE | random COUNT SEED [DEPTH] | small MAXLEN [SHARD SHARDS] | vm COUNT SEED"); std::process::exit(2); }
+        _ => { eprintln!("usage: c15 one CASE | vmone CASE | around CASE | random COUNT SEED [DEPTH] | targeted [SHARD SHARDS] | small MAXLEN [SHARD SHARDS] | vm COUNT SEED"); std::process::exit(2); }
     }
     writeln!(w, "#SUMMARY\tevaluations={}\tdistinct_nontrivial={}\tok={}\terr={}\tpanics={}\tdiverged={}\toracle_violations={}\thelp_rendered={}\tgrammars_rejected={}",
         st.n, st.nontriv, st.oks, st.errs, st.panics, st.diverged, st.violations, st.help_rendered, rejected).unwrap();
